@@ -120,14 +120,13 @@ def isUnaryLookupTok : Option Tok → Bool
   | some (.atom k _) => decide (4 ≤ k)
   | _ => false
 
-/-- F04d trigger: the W3C derivation has a path step whose left operand is a parenthesised expression
-(1.0) or a postfix / unary lookup (3.1), or whose right operand starts with a variable reference (2.0) or a
-unary lookup (3.1) -/
+/-- F04d trigger: the W3C derivation has a path step whose left operand is a postfix / unary lookup (3.1), or
+whose right operand starts with a variable reference (2.0) or a unary lookup (3.1).  (The 1.0 case — left
+operand a parenthesised expression — was repaired in /repo and is no longer part of the trigger.) -/
 def trigF04d (ver : Nat) (rows : List Row) (spec : Tree) : Bool :=
   anyNode (fun t => match t with
     | .bin o l r => isPath (some (symOf rows o)) &&
-        ((ver == 10 && (match l with | .group .. => true | _ => false)) ||
-         (ver == 31 && (binSym rows l == some "?" || (match l with | .atom k _ => decide (4 ≤ k) | _ => false) ||
+        ((ver == 31 && (binSym rows l == some "?" || (match l with | .atom k _ => decide (4 ≤ k) | _ => false) ||
             isUnaryLookupTok (firstTok r))) ||
          (ver == 20 && (match firstTok r with | some (.atom 2 _) => true | _ => false)))
     | _ => false) spec
